@@ -24,7 +24,9 @@ def alphabet(nx=4, safe=False, unkey=None, variant='plain'):
     xs = stubs.XS[:nx]
 
     def add(args, kw, recv, cls, kind='ok'):
-        if variant == 'plain':
+        if variant == 'frac':
+            val = ('frac', recv[0])
+        elif variant == 'plain':
             val = stubs._value(*recv)
         elif variant in ('ignore_y', 'ignore_1'):
             val = stubs._value(recv[0], 0)
@@ -53,6 +55,14 @@ def alphabet(nx=4, safe=False, unkey=None, variant='plain'):
         add((1.2,), {}, (1.2, 0), (1,))
         add((), {'x': 1.8}, (1.8, 0), (2,))
         add((0.9, 0), {}, (0.9, 0), (1,))
+        add((7.0,), {}, (7.0, 0), (7,), 'raise')
+        add((8.0,), {}, (8.0, 0), (8,), 'raise')
+    elif variant == 'frac':       # no rounding configured: nearby floats are DIFFERENT calls
+        for n, x in enumerate(xs):
+            add((x + 0.4,), {}, (x + 0.4, 0), (n, 'a'))
+        add((float(xs[0]),), {}, (float(xs[0]), 0), (0, 'b'))
+        add((), {'x': float(xs[1])}, (float(xs[1]), 0), (1, 'b'))
+        add((xs[0] + 0.4, 0), {}, (xs[0] + 0.4, 0), (0, 'a'))
         add((7.0,), {}, (7.0, 0), (7,), 'raise')
         add((8.0,), {}, (8.0, 0), (8,), 'raise')
     elif variant == 'tol1':
@@ -143,7 +153,7 @@ class Recorder(object):
                 unkey = stubs.BadRepr()      # cannot be encoded by str/repr/pickle/named hash (TypeError)
         self.variant = cfg.get('variant', 'plain')
         self.args = alphabet(cfg.get('nx', 4), self.safe, unkey, self.variant)
-        self.funcs = {'plain': stubs.FUNCS, 'ignore_y': stubs.GFUNCS, 'ignore_1': stubs.GFUNCS, 'tol0': stubs.HFUNCS,
+        self.funcs = {'plain': stubs.FUNCS, 'frac': stubs.QFUNCS, 'ignore_y': stubs.GFUNCS, 'ignore_1': stubs.GFUNCS, 'tol0': stubs.HFUNCS,
                       'tol1': stubs.TFUNCS}[self.variant]
         self.ni = cfg.get('ni', 1)
         self.na = cfg.get('na', 2)
@@ -171,6 +181,10 @@ class Recorder(object):
         if backend == 'file':
             path = os.path.join(w, 'F%s.pkl' % tag)
             c = A.file_archive(path, cached=True)
+            return c, Slot('file', c.archive, path)
+        if backend == 'file-json':
+            path = os.path.join(w, 'F%s.json' % tag)
+            c = A.file_archive(path, cached=True, protocol='json')
             return c, Slot('file', c.archive, path)
         if backend == 'dir':
             path = os.path.join(w, 'D%s' % tag)
